@@ -108,6 +108,7 @@ pub fn faulty_bench(c: &FCase) -> Bench {
             let op = Op::Query {
                 req: (m.reqs.len() - 1) as u8,
                 script: 0,
+                take: 0,
             };
             match script {
                 None => insert_op(&mut m.init, *pos, op),
@@ -596,8 +597,8 @@ pub fn eval_fcase(c: &FCase, prop: &str) -> Result<FInfo, Verdict> {
             info.post_calls += 1;
             post_kinds.insert(std::mem::discriminant(cmd));
             if cmd.is_run() {
-                let invalid_ok = matches!((cmd, &err), (Cmd::StepUntil(Dl::Abs(t)), Some(ErrKind::InvalidDeadline(_))) if *t < t_before);
-                if err != Some(ErrKind::Terminated) && !invalid_ok {
+                // (also for a deadline in the past: the statement says *every* further attempt)
+                if err != Some(ErrKind::Terminated) {
                     drop_world(w, &shared);
                     return Err(ffail(
                         &["C11"],
@@ -865,7 +866,7 @@ fn post_strategy(nm: u16, nsrc: u16) -> BoxedStrategy<Cmd> {
     let mut v: Vec<(u32, BoxedStrategy<Cmd>)> = vec![
         (3, Just(Cmd::Step).boxed()),
         (3, (0u64..6).prop_map(|d| Cmd::StepUntil(Dl::Rel(d))).boxed()),
-        (1, (-5i64..40).prop_map(|t| Cmd::StepUntil(Dl::Abs(t))).boxed()),
+        (2, (-5i64..40).prop_map(|t| Cmd::StepUntil(Dl::Abs(t))).boxed()),
         (3, (0..nm, 0u16..2, 1u8..3).prop_map(|(model, script, ttl)| Cmd::ProcessEvent { model, script, ttl }).boxed()),
         (3, (0..nm, 0u16..2, 1u8..3).prop_map(|(model, script, ttl)| Cmd::ProcessQuery { model, script, ttl }).boxed()),
         (1, (0..nm, 1u64..3, 0u16..2, 1u8..3).prop_map(|(model, d, script, ttl)| Cmd::Sched { model, dl: Dl::Rel(d), period: None, keyed: None, script, ttl }).boxed()),
